@@ -393,7 +393,7 @@ func runC17(c *core.Ctx) {
 			if cont, ok := d.Raw.(containers.Container[int]); ok {
 				rd.monitored("containers", "GetSortedValues", nil, func() []reflect.Value { containers.GetSortedValues(cont); return nil })
 				rd.monitored("containers", "GetSortedValuesFunc", nil, func() []reflect.Value {
-					containers.GetSortedValuesFunc(cont, intCmps[r.Intn(3)].F)
+					containers.GetSortedValuesFunc(cont, intCmps[r.Intn(4)].F)
 					return nil
 				})
 			}
